@@ -1,7 +1,551 @@
-//! C20 — not built yet (stub).
+//! C20 — Zone files load to exactly the records they denote.
+//!
+//! `exact_load`: record sets rendered by the independent RFC 1035 §5 printer
+//! (`refm::zonefile_printer`) with per-line random layout must load, through
+//! `Parser::new(text, None, Some(origin)).parse()`, to exactly the records the file denotes.
+//! `decimal_escapes`: RFC 1035 §5.1 `\DDD` (decimal) inside quoted strings, unquoted strings and
+//! names — a freedom of the RFC syntax the statement does not list by name; kept apart so its
+//! verdicts can be read separately.
+//! `garbage`: malformed text of any kind yields `Ok` or `Err`, never a panic, never a hang
+//! (5 s budget for texts of at most 64 KB).
 
-use crate::core::Check;
+use std::collections::BTreeSet;
+use std::time::Duration;
+
+use hickory_proto::dnssec::rdata::DNSSECRData;
+use hickory_proto::rr::rdata::svcb::{SvcParamKey, SvcParamValue};
+use hickory_proto::rr::{DNSClass, Name, RData, Record};
+use hickory_proto::serialize::txt::Parser;
+use proptest::prelude::*;
+use serde::{Deserialize, Serialize};
+
+use crate::core::{catch, prop, prop_hang, CaseResult, Check, Fail, Rec, Tier};
+use crate::gen::zonefile as zgen;
+use crate::refm::zonefile_printer::{self as zp, Blob, Feature, Features, Flat, Labels, SvcParam, ZData, ZoneFile};
+
+// ---------------------------------------------------------------------------------------------
+// hickory value -> model
+
+fn labels_of(n: &Name) -> Labels {
+    n.iter().map(|l| String::from_utf8_lossy(l).to_ascii_lowercase()).collect()
+}
+
+fn to_abs(labels: &Labels) -> Name {
+    let mut n = Name::from_labels(labels.iter().map(|l| l.as_bytes())).expect("generator stays within name limits");
+    n.set_fqdn(true);
+    n
+}
+
+fn s(b: &[u8]) -> String {
+    // printable ASCII survives unchanged; anything else becomes visible as an escape
+    b.iter().map(|c| if (0x20..=0x7e).contains(c) { (*c as char).to_string() } else { format!("\\x{c:02x}") }).collect()
+}
+
+/// None = RDATA of a type the model does not know (reported as a mismatch by the caller).
+/// `relative` is set when an embedded domain name is not fully qualified.
+fn data_of(d: &RData, relative: &mut bool) -> Option<ZData> {
+    let mut nm = |n: &Name| -> Labels {
+        if !n.is_fqdn() {
+            *relative = true;
+        }
+        labels_of(n)
+    };
+    Some(match d {
+        RData::A(a) => ZData::A(a.0.octets()),
+        RData::AAAA(a) => ZData::Aaaa(a.0.segments()),
+        RData::NS(n) => ZData::Ns(nm(&n.0)),
+        RData::CNAME(n) => ZData::Cname(nm(&n.0)),
+        RData::PTR(n) => ZData::Ptr(nm(&n.0)),
+        RData::ANAME(n) => ZData::Aname(nm(&n.0)),
+        RData::MX(m) => ZData::Mx { pref: m.preference, exch: nm(&m.exchange) },
+        RData::SOA(x) => ZData::Soa {
+            mname: nm(&x.mname),
+            rname: nm(&x.rname),
+            serial: x.serial,
+            refresh: x.refresh as u32,
+            retry: x.retry as u32,
+            expire: x.expire as u32,
+            minimum: x.minimum,
+        },
+        RData::TXT(t) => ZData::Txt(t.txt_data.iter().map(|b| s(b)).collect()),
+        RData::HINFO(h) => ZData::Hinfo { cpu: s(&h.cpu), os: s(&h.os) },
+        RData::SRV(x) => ZData::Srv { prio: x.priority, weight: x.weight, port: x.port, target: nm(&x.target) },
+        RData::CAA(c) => ZData::Caa { flags: c.flags(), tag: c.tag.clone(), value: s(&c.value) },
+        RData::NAPTR(n) => ZData::Naptr {
+            order: n.order,
+            pref: n.preference,
+            flags: s(&n.flags),
+            services: s(&n.services),
+            regexp: s(&n.regexp),
+            replacement: nm(&n.replacement),
+        },
+        RData::TLSA(t) => ZData::Tlsa { usage: t.cert_usage.into(), selector: t.selector.into(), matching: t.matching.into(), data: Blob(t.cert_data.clone()) },
+        RData::SMIMEA(t) => ZData::Smimea { usage: t.cert_usage.into(), selector: t.selector.into(), matching: t.matching.into(), data: Blob(t.cert_data.clone()) },
+        RData::SSHFP(x) => ZData::Sshfp { alg: x.algorithm.into(), fptype: x.fingerprint_type.into(), fp: Blob(x.fingerprint.clone()) },
+        RData::DNSSEC(DNSSECRData::DS(ds)) => ZData::Ds { tag: ds.key_tag(), alg: ds.algorithm().into(), dtype: ds.digest_type().into(), digest: Blob(ds.digest().to_vec()) },
+        RData::CERT(c) => ZData::Cert { ctype: c.cert_type.into(), tag: c.key_tag, alg: c.algorithm.into(), data: Blob(c.cert_data.clone()) },
+        RData::OPENPGPKEY(k) => ZData::Openpgpkey(Blob(k.public_key.clone())),
+        RData::CSYNC(c) => {
+            let mut types: Vec<u16> = c.type_bit_maps.iter().map(u16::from).collect();
+            types.sort_unstable();
+            ZData::Csync { serial: c.soa_serial, flags: c.flags(), types }
+        }
+        RData::SVCB(x) => svcb_of(false, x, &mut nm)?,
+        RData::HTTPS(x) => svcb_of(true, &x.0, &mut nm)?,
+        _ => return None,
+    })
+}
+
+fn svcb_of(https: bool, x: &hickory_proto::rr::rdata::SVCB, nm: &mut impl FnMut(&Name) -> Labels) -> Option<ZData> {
+    let mut params = Vec::new();
+    for (k, v) in &x.svc_params {
+        let p = match (k, v) {
+            (SvcParamKey::Alpn, SvcParamValue::Alpn(a)) => SvcParam::Alpn(a.0.clone()),
+            (SvcParamKey::NoDefaultAlpn, SvcParamValue::NoDefaultAlpn) => SvcParam::NoDefaultAlpn,
+            (SvcParamKey::Port, SvcParamValue::Port(p)) => SvcParam::Port(*p),
+            (SvcParamKey::Ipv4Hint, SvcParamValue::Ipv4Hint(h)) => SvcParam::V4Hint(h.0.iter().map(|a| a.0.octets()).collect()),
+            (SvcParamKey::Ipv6Hint, SvcParamValue::Ipv6Hint(h)) => SvcParam::V6Hint(h.0.iter().map(|a| a.0.segments()).collect()),
+            _ => return None,
+        };
+        params.push(p);
+    }
+    Some(ZData::Svcb { https, prio: x.svc_priority, target: nm(&x.target_name), params })
+}
+
+struct Loaded {
+    flats: Vec<Flat>,
+    /// problems that make the loaded data unusable as "records" at all
+    notes: Vec<String>,
+}
+
+fn flatten(map: &std::collections::BTreeMap<hickory_proto::rr::RrKey, hickory_proto::rr::RecordSet>) -> Loaded {
+    let mut flats = Vec::new();
+    let mut notes = Vec::new();
+    for (key, set) in map {
+        for r in set.records_without_rrsigs() {
+            let r: &Record = r;
+            if !r.name.is_fqdn() {
+                notes.push(format!("owner {} is not fully qualified", r.name));
+            }
+            if labels_of(&r.name) != labels_of(&Name::from(key.name.clone())) || r.record_type() != key.record_type {
+                notes.push(format!("record {} {} filed under key {} {}", r.name, r.record_type(), key.name, key.record_type));
+            }
+            let mut relative = false;
+            let data = data_of(&r.data, &mut relative);
+            if relative {
+                notes.push(format!("{} {}: a domain name inside the RDATA is not fully qualified: {}", r.name, r.record_type(), r.data));
+            }
+            match data {
+                Some(data) => flats.push(Flat {
+                    owner: labels_of(&r.name),
+                    class: match r.dns_class {
+                        DNSClass::IN => "IN".to_string(),
+                        c => format!("{c:?}"),
+                    },
+                    rtype: data.type_mnemonic().to_string(),
+                    ttl: r.ttl,
+                    data,
+                }),
+                None => notes.push(format!("{} {}: RDATA outside the model: {}", r.name, r.record_type(), r.data)),
+            }
+        }
+    }
+    flats.sort();
+    Loaded { flats, notes }
+}
+
+#[derive(Debug)]
+enum Outcome {
+    Match,
+    Panic((String, String)),
+    Err(String),
+    Differs(String),
+}
+
+fn load_and_compare(text: &str, origin: &Labels, expected: &[Flat]) -> Outcome {
+    let origin_name = to_abs(origin);
+    let r = catch(|| Parser::new(text, None, Some(origin_name)).parse());
+    let parsed = match r {
+        Err(p) => return Outcome::Panic(p),
+        Ok(Err(e)) => return Outcome::Err(e.to_string()),
+        Ok(Ok((_o, map))) => map,
+    };
+    let loaded = flatten(&parsed);
+    if !loaded.notes.is_empty() {
+        return Outcome::Differs(loaded.notes.join("; "));
+    }
+    if loaded.flats == expected {
+        return Outcome::Match;
+    }
+    let exp: BTreeSet<&Flat> = expected.iter().collect();
+    let got: BTreeSet<&Flat> = loaded.flats.iter().collect();
+    let missing: Vec<String> = exp.difference(&got).take(2).map(|f| format!("{f:?}")).collect();
+    let extra: Vec<String> = got.difference(&exp).take(2).map(|f| format!("{f:?}")).collect();
+    Outcome::Differs(format!("denoted but not loaded: [{}]; loaded but not denoted: [{}]", missing.join(", "), extra.join(", ")))
+}
+
+fn is_lexer_limit_panic(p: &(String, String)) -> bool {
+    p.1.contains("zone_lex.rs") && p.0.contains("i < 4095")
+}
+
+/// Layout features that (by DESIGN §10 items 13/14 or by triage of this check) hickory mishandles.
+/// Each has its own signature; a failing case is attributed to one of them only if the failure
+/// disappears when all of them are avoided and persists when just that one is used.
+const SUSPECTS: &[(Feature, &str)] = &[
+    (Feature::LongComment, "lexer-4095-iteration-assert"),
+    (Feature::LongBlankRun, "lexer-4095-iteration-assert"),
+    (Feature::QuotedStringInsideParens, "quoted-string-inside-parentheses-not-recognised"),
+    (Feature::AtInRdata, "at-sign-in-rdata-rejected"),
+    (Feature::Base64Split, "cert-base64-split-into-tokens"),
+    (Feature::SvcbRelativeTarget, "svcb-relative-target-not-completed-with-origin"),
+];
+
+fn render_case(text: &str) -> String {
+    let mut t = text.replace('\r', "\\r").replace('\t', "\\t");
+    if t.len() > 700 {
+        let mut cut = 700;
+        while !t.is_char_boundary(cut) {
+            cut -= 1;
+        }
+        t.truncate(cut);
+        t.push_str(" …");
+    }
+    t
+}
+
+/// `avoid_known_fragile` = render without the layout features listed in SUSPECTS, so that most
+/// files reach the parser's other paths instead of being set aside as known findings (DESIGN §6:
+/// matched cases are excluded by construction so the search continues behind them)
+#[derive(Clone, Debug, Serialize, Deserialize)]
+struct ExactCase {
+    avoid_known_fragile: bool,
+    zone: ZoneFile,
+}
+
+fn exact_case(tier: Tier, extended: bool) -> impl Strategy<Value = ExactCase> {
+    (prop::bool::weighted(0.75), zgen::zone_file(tier, extended)).prop_map(|(avoid_known_fragile, zone)| ExactCase { avoid_known_fragile, zone })
+}
+
+fn exact_body(c: &ExactCase, rec: &mut Rec) -> CaseResult {
+    let z = &c.zone;
+    let base: Features = if c.avoid_known_fragile { SUSPECTS.iter().map(|(f, _)| *f).collect() } else { Features::new() };
+    if let Some(reason) = zp::out_of_domain(z) {
+        rec.discard(reason);
+        return Ok(());
+    }
+    let expected = zp::denoted(z);
+    if expected.is_empty() {
+        rec.discard("no-records");
+        return Ok(());
+    }
+    let (text, feats) = zp::print(z, &base);
+    if text.len() > 64 * 1024 {
+        rec.discard("over-64k");
+        return Ok(());
+    }
+    rec.class(if c.avoid_known_fragile { "mode:known-fragile-layouts-avoided" } else { "mode:all-layouts" });
+    for f in &feats {
+        rec.class(f.label());
+    }
+    let mut types: BTreeSet<&str> = BTreeSet::new();
+    for f in &expected {
+        types.insert(match f.rtype.as_str() {
+            "A" => "type:A",
+            "AAAA" => "type:AAAA",
+            "NS" => "type:NS",
+            "CNAME" => "type:CNAME",
+            "PTR" => "type:PTR",
+            "ANAME" => "type:ANAME",
+            "MX" => "type:MX",
+            "SOA" => "type:SOA",
+            "TXT" => "type:TXT",
+            "HINFO" => "type:HINFO",
+            "SRV" => "type:SRV",
+            "CAA" => "type:CAA",
+            "NAPTR" => "type:NAPTR",
+            "TLSA" => "type:TLSA",
+            "SMIMEA" => "type:SMIMEA",
+            "SSHFP" => "type:SSHFP",
+            "DS" => "type:DS",
+            "CERT" => "type:CERT",
+            "OPENPGPKEY" => "type:OPENPGPKEY",
+            "CSYNC" => "type:CSYNC",
+            "SVCB" => "type:SVCB",
+            "HTTPS" => "type:HTTPS",
+            _ => "type:?",
+        });
+    }
+    for t in types {
+        rec.class(t);
+    }
+    // NT rule (DESIGN §7 C20): >= 3 records and >= 2 layout features among inheritance, relative
+    // name, continuation, escape, $ORIGIN switch
+    let nt_feats = [
+        feats.contains(&Feature::OwnerInherited) || feats.contains(&Feature::TtlFromDollarTtl) || feats.contains(&Feature::TtlFromPrevious) || feats.contains(&Feature::ClassOmitted),
+        feats.contains(&Feature::OwnerRelative) || feats.contains(&Feature::RelativeRdataName) || feats.contains(&Feature::OwnerAt),
+        feats.contains(&Feature::Continuation),
+        feats.contains(&Feature::EscapedDotInName) || feats.contains(&Feature::EscapedQuoteOrBackslash),
+        feats.contains(&Feature::OriginSwitch),
+    ]
+    .iter()
+    .filter(|b| **b)
+    .count();
+    if expected.len() >= 3 && nt_feats >= 2 {
+        rec.nontrivial();
+        if rec.wants_note() {
+            rec.note(render_case(&text));
+        }
+    }
+
+    let first = load_and_compare(&text, &z.origin, &expected);
+    if matches!(first, Outcome::Match) {
+        return Ok(());
+    }
+    let describe = |o: &Outcome| -> String {
+        match o {
+            Outcome::Match => "loads correctly".into(),
+            Outcome::Panic(p) => format!("panic at {}: {}", p.1, p.0),
+            Outcome::Err(e) => format!("parse error: {e}"),
+            Outcome::Differs(d) => d.clone(),
+        }
+    };
+    // ---- attribution to a known layout feature ------------------------------------------------
+    let used: Vec<(Feature, &str)> = SUSPECTS.iter().filter(|(f, _)| feats.contains(f)).cloned().collect();
+    if !used.is_empty() {
+        let all: Features = used.iter().map(|(f, _)| *f).collect();
+        let (clean_text, _) = zp::print(z, &all);
+        let clean = load_and_compare(&clean_text, &z.origin, &expected);
+        if let Outcome::Panic(p) = &clean {
+            // the per-token limit can also be reached by the data itself (a > 4 KB base64 token,
+            // a large parenthesised group): same root cause, whatever else the file contains
+            if is_lexer_limit_panic(p) {
+                vfail!("lexer-4095-iteration-assert", "{}\n--- file ---\n{}", describe(&clean), render_case(&clean_text));
+            }
+        }
+        if matches!(clean, Outcome::Match) {
+            for (f, sig) in &used {
+                let mut others = all.clone();
+                others.remove(f);
+                // features sharing one signature (the two long-run kinds) are one root cause
+                for (g, s2) in &used {
+                    if s2 == sig {
+                        others.remove(g);
+                    }
+                }
+                let (t, _) = zp::print(z, &others);
+                let o = load_and_compare(&t, &z.origin, &expected);
+                if !matches!(o, Outcome::Match) {
+                    if *sig == "lexer-4095-iteration-assert" {
+                        if let Outcome::Panic(p) = &o {
+                            if !is_lexer_limit_panic(p) {
+                                continue;
+                            }
+                        } else {
+                            continue;
+                        }
+                    }
+                    vfail!(*sig, "with layout feature '{}': {}\n--- file ---\n{}", f.label(), describe(&o), render_case(&t));
+                }
+            }
+        }
+    }
+    match &first {
+        Outcome::Panic(p) if is_lexer_limit_panic(p) => {
+            vfail!("lexer-4095-iteration-assert", "{}\n--- file ---\n{}", describe(&first), render_case(&text))
+        }
+        Outcome::Panic(p) => Err(crate::core::panic_fail(p)),
+        Outcome::Err(_) => vfail!("well-formed-zone-file-rejected", "{}\n--- file ---\n{}", describe(&first), render_case(&text)),
+        _ => vfail!("zone-load-differs-from-denoted-records", "{}\n--- file ---\n{}", describe(&first), render_case(&text)),
+    }
+}
+
+// ---------------------------------------------------------------------------------------------
+// \DDD escapes (RFC 1035 §5.1: "\DDD where each D is a digit is the octet corresponding to the
+// decimal number described by DDD")
+
+#[derive(Clone, Debug, Serialize, Deserialize)]
+enum EscPlace {
+    QuotedTxt,
+    UnquotedTxt,
+    OwnerLabel,
+    RdataName,
+}
+
+#[derive(Clone, Debug, Serialize, Deserialize)]
+struct EscCase {
+    place: EscPlace,
+    prefix: String,
+    /// the escaped octet (printable ASCII, so that the denoted record is within what every
+    /// consumer can represent)
+    octet: u8,
+    suffix: String,
+}
+
+fn esc_case() -> impl Strategy<Value = EscCase> {
+    (
+        prop::sample::select(vec![EscPlace::QuotedTxt, EscPlace::UnquotedTxt, EscPlace::OwnerLabel, EscPlace::RdataName]),
+        "[a-z]{0,4}",
+        // letters and digits: legal in host names and in strings alike
+        prop::sample::select((b'a'..=b'z').chain(b'0'..=b'9').collect::<Vec<u8>>()),
+        "[a-z]{0,4}",
+    )
+        .prop_map(|(place, prefix, octet, suffix)| EscCase { place, prefix, octet, suffix })
+}
+
+fn esc_body(c: &EscCase, rec: &mut Rec) -> CaseResult {
+    let esc = format!("{}\\{:03}{}", c.prefix, c.octet, c.suffix);
+    let plain = format!("{}{}{}", c.prefix, c.octet as char, c.suffix);
+    let origin: Labels = vec!["example".into(), "com".into()];
+    let host = |l: &str| -> Labels { vec![l.to_string(), "example".into(), "com".into()] };
+    let (text, expected, sig) = match c.place {
+        EscPlace::QuotedTxt => (
+            format!("a 300 IN TXT \"{esc}\"\n"),
+            zp::ZRec { owner: host("a"), ttl: 300, data: ZData::Txt(vec![plain.clone()]) },
+            "decimal-escape-in-quoted-string-miscomputed",
+        ),
+        EscPlace::UnquotedTxt => (
+            format!("a 300 IN TXT {esc}\n"),
+            zp::ZRec { owner: host("a"), ttl: 300, data: ZData::Txt(vec![plain.clone()]) },
+            "decimal-escape-in-unquoted-string-not-decoded",
+        ),
+        EscPlace::OwnerLabel => (
+            format!("{esc} 300 IN A 192.0.2.1\n"),
+            zp::ZRec { owner: host(&plain), ttl: 300, data: ZData::A([192, 0, 2, 1]) },
+            "decimal-escape-in-name-read-as-octal",
+        ),
+        EscPlace::RdataName => (
+            format!("a 300 IN NS {esc}\n"),
+            zp::ZRec { owner: host("a"), ttl: 300, data: ZData::Ns(host(&plain)) },
+            "decimal-escape-in-name-read-as-octal",
+        ),
+    };
+    rec.class(format!("{:?}", c.place));
+    rec.nontrivial();
+    if rec.wants_note() {
+        rec.note(render_case(&text));
+    }
+    let expected = vec![expected.flat()];
+    match load_and_compare(&text, &origin, &expected) {
+        Outcome::Match => Ok(()),
+        Outcome::Panic(p) => Err(crate::core::panic_fail(&p)),
+        Outcome::Err(e) => vfail!(sig, "{:?} denotes {:?} (\\{:03} = octet {} = {:?}); parse error: {e}", text, expected[0], c.octet, c.octet, c.octet as char),
+        Outcome::Differs(d) => vfail!(sig, "{:?}: \\{:03} is octet {} = {:?} (RFC 1035 §5.1, decimal); {d}", text, c.octet, c.octet, c.octet as char),
+    }
+}
+
+// ---------------------------------------------------------------------------------------------
+// robustness
+
+#[derive(Clone, Debug, Serialize, Deserialize)]
+struct Garbage {
+    class: String,
+    text: String,
+}
+
+fn include_outside_sandbox(text: &str) -> bool {
+    // $INCLUDE of an absolute path reads that file; keep the generator away from devices and
+    // real files (only /nonexistent-verif/... is allowed as an absolute path)
+    let mut rest = text;
+    while let Some(i) = rest.find("$INCLUDE") {
+        rest = &rest[i + 8..];
+        let arg = rest.trim_start_matches([' ', '\t', '"', '(']);
+        if (arg.starts_with('/') || arg.starts_with('\\')) && !arg.starts_with("/nonexistent-verif/") {
+            return true;
+        }
+    }
+    false
+}
+
+fn garbage_body(g: &Garbage, rec: &mut Rec) -> CaseResult {
+    if g.text.len() > 64 * 1024 {
+        rec.discard("over-64k");
+        return Ok(());
+    }
+    if include_outside_sandbox(&g.text) {
+        rec.discard("$INCLUDE-of-absolute-path");
+        return Ok(());
+    }
+    rec.class(g.class.clone());
+    let origin = Name::from_ascii("example.com.").expect("fixed");
+    let r = catch(|| Parser::new(g.text.as_str(), None, Some(origin)).parse());
+    match r {
+        Ok(Ok(_)) => {
+            rec.class("result:ok");
+            // accepted garbage is fine; what it means is exact_load's business
+        }
+        Ok(Err(_)) => {
+            rec.class("result:err");
+            rec.nontrivial();
+            if rec.wants_note() {
+                rec.note(format!("[{}] {}", g.class, render_case(&g.text)));
+            }
+        }
+        Err(p) => {
+            if is_lexer_limit_panic(&p) {
+                vfail!("lexer-4095-iteration-assert", "panic at {}: {} on a {}-byte text of class {}: {}", p.1, p.0, g.text.len(), g.class, render_case(&g.text));
+            }
+            if p.1.contains("rr/record_type.rs") && p.0.contains("is_ascii_lowercase") {
+                vfail!(
+                    "recordtype-from-str-debug-assert-on-lowercase",
+                    "panic at {}: {} (debug_assert!: only in builds with debug assertions; a plain release build returns Err) on text of class {}: {}",
+                    p.1,
+                    p.0,
+                    g.class,
+                    render_case(&g.text)
+                );
+            }
+            if p.1.contains("rr/rdata/svcb.rs") && p.0.contains("when slicing `\"`") {
+                vfail!(
+                    "svcb-param-value-single-quote-slice-panic",
+                    "panic at {}: {} on text of class {}: {}",
+                    p.1,
+                    p.0,
+                    g.class,
+                    render_case(&g.text)
+                );
+            }
+            if p.1.contains("rr/rdata/svcb.rs") && p.0.starts_with("infallible") {
+                vfail!(
+                    "svcb-alpn-list-expect-infallible-panic",
+                    "panic at {}: {} on text of class {}: {}",
+                    p.1,
+                    p.0,
+                    g.class,
+                    render_case(&g.text)
+                );
+            }
+            let f = crate::core::panic_fail(&p);
+            return Err(Fail::new(f.sig, format!("{} on text of class {}: {}", f.msg, g.class, render_case(&g.text))));
+        }
+    }
+    Ok(())
+}
 
 pub fn check() -> Option<Check> {
-    None
+    let exact_core = prop("exact_load", 60_000, 2_000_000, |t: Tier| exact_case(t, false), exact_body);
+    let exact_ext = prop("exact_load_extended_types", 30_000, 1_000_000, |t: Tier| exact_case(t, true), exact_body);
+    let escapes = prop("decimal_escapes", 2_000, 20_000, |_| esc_case(), esc_body);
+    let garbage = prop_hang(
+        "garbage",
+        60_000,
+        2_000_000,
+        Duration::from_secs(5),
+        |t: Tier| zgen::garbage(t).prop_map(|(text, class)| Garbage { class, text }),
+        garbage_body,
+    );
+    Some(Check {
+        id: "C20",
+        level: "exploration",
+        rule: "exact_load: 1-10 (thorough 16) items per file: RRs of A, AAAA, NS, CNAME, PTR, MX, SOA, TXT, SRV, CAA, HINFO, NAPTR, TLSA, SSHFP, DS (extended sub: + ANAME, SMIMEA, CERT, OPENPGPKEY, CSYNC, SVCB, HTTPS) with generated field values, owners at/below 1-3 origins incl. wildcard, underscore and escaped-dot labels, runs of RRs at one owner, $ORIGIN / $TTL / blank / comment lines in between; per-RR layout: owner absolute / relative / @ / inherited, TTL explicit / from $TTL / from previous RR, class present / absent, class before TTL, blanks vs tabs, trailing comment, RDATA names absolute / relative / @, strings quoted / unquoted, hex upper/lower and split, parenthesised group over any RDATA field range with line breaks and inner comment, LF / CRLF, final newline present / absent, rare >4 KB comment or blank run. Oracle: loaded map flattened to (owner, class, type, TTL, RDATA) = denoted set, names compared case-insensitively. Non-trivial = distinct case AND >= 3 records AND >= 2 of {inheritance (owner/TTL/class), relative name or @, continuation, escape (\\. \\\" \\\\), $ORIGIN switch}. decimal_escapes: every case. garbage: every case that is rejected with Err (accepted ones are counted).",
+        assumptions: vec![
+            "exact-load alphabet: LDH labels (no xn-- prefix), leading underscore, leading *, escaped dot; strings printable ASCII with \\\" and \\\\ as the only escapes; class IN; $ORIGIN/$TTL upper case; type mnemonics upper case; TTLs and SOA timers as plain decimal integers (TTL <= 2^31-1, SOA refresh/retry/expire <= 2^31-1 because hickory's SOA stores them as i32)",
+            "parentheses are used only around RDATA fields (after the type), the one place hickory's parser accepts a group",
+            "one TTL per RRset, no duplicate RRs, at most one SOA per file and one CNAME/ANAME per owner (generator enforces; else discarded)",
+            "the first RR of a file states its class explicitly (RFC 1035 defines no default before the first statement)",
+            "embedded domain names compared case-insensitively (the UTF-8 name path lower-cases; DNS-equal)",
+            "garbage: $INCLUDE of absolute paths only below /nonexistent-verif/ (the parser would read real files)",
+            "no libFuzzer campaign in this harness (fz_zonefile lives in /verif/fuzz)",
+        ],
+        subs: vec![exact_core, exact_ext, escapes, garbage],
+    })
 }
